@@ -1,5 +1,5 @@
 \* exhaustive, the code as it is: chains of <= 4 blocks, <= 2 reverts
-\* measured: 5 222 distinct states, 2 833 519 transitions, depth 8, ~2-3 min on 4 workers
+\* measured: 5 222 distinct states, 5 888 221 transitions (2 833 519 before the response-flag dimension), depth 8, ~5-7 min on 4 workers
 CONSTANTS
   MaxLen = 4
   MaxReverts = 2
